@@ -39,4 +39,9 @@ META = {
         "design_ref": "DESIGN.md section 6 C11, Appendix F.4",
         "note": "Trusted: relaxed model data plane, reference Usage Report decoder in the harness, engine + z3. Bound: 3 (quick) / 4 (thorough) steps, <= 2 URRs.",
     },
+    "C08": {
+        "text": "Bounded model checking of the request handlers with a byte-level reference decoder (TS 29.244 7.2.2) on every datagram sent: destination, echoed 24-bit sequence number, response type, header SEID (peer's CP SEID, or 0 iff cause 'session context not found' iff the addressed SEID is not live, for an unconstrained 64-bit header SEID), Node ID and UP F-SEID of the Establishment Response (and that a Modification to that SEID acts on the new session), Created PDR IEs exactly for PDRs with a UE address, no trace in session/node/data-plane state for requests that are not answered or answered with an error, one recovery time stamp equal to the start instant.",
+        "design_ref": "DESIGN.md section 6 C08",
+        "note": "Trusted: reference decoder in the harness, engine + z3; native replay uses real loop-back sockets. Bound: one or two requests per run, 9 request shapes, 1 (quick) / 3 (thorough) start instants.",
+    },
 }
